@@ -3,7 +3,7 @@
    The network-form theorem is parametric in the paletted container (C12's subject): any container codec
    whose ReadFrom after WriteTo returns the same array of ids with exact consumption, for every
    destination of the same geometry, can be plugged in. *)
-From Coq Require Import List NArith ZArith Lia.
+From Coq Require Import List NArith ZArith Lia Bool ZifyBool.
 From GoMC Require Import Base.Bytes Base.Dec Model.C05 Model.C06 Model.C11 Model.C13
   Proofs.C13 Proofs.C13_nbt Proofs.C13_wire Proofs.C13_inst Proofs.C13_save Proofs.C13_registry Gen.Registry.
 From GoMC Require Model.C01 Model.C12 Proofs.C11 Proofs.C12 Proofs.C01_dec.
@@ -222,6 +222,96 @@ Example C13_ex_wire :
   | None => False
   end.
 Proof. vm_compute. repeat split; reflexivity. Qed.
+
+(* the save form on the same chunk, executed: a toy registry (state v <-> one-byte name), the 4-bit linear
+   block palette and the single-valued biome palette come back, every height map from its own key *)
+Definition ex_st_name (v : Z) : option (list N * (N * list N)) :=
+  if ((0 <=? v) && (v <? 256))%Z then Some ([Z.to_N v], (10, [0])) else None.
+Definition ex_st_id (k : list N * (N * list N)) : option Z :=
+  match fst k with [b] => Some (Z.of_N b) | _ => None end.
+Definition ex_bio_name (v : Z) : option (list N) := if ((0 <=? v) && (v <? 64))%Z then Some [98; Z.to_N v] else None.
+Definition ex_bio_id (k : list N) : option Z := match k with [_; b] => Some (Z.of_N b) | _ => None end.
+Definition ex_save_dst : schunk := mkSC [] [([1], [5]); (kWS, [9])] [] (-4)%Z.
+Example C13_ex_save :
+  match to_save ex_st_name ex_bio_name ex_src ex_save_dst with
+  | SOk s =>
+      map ss_y (sc_secs s) = [(-4)%Z] /\ hm_lookup [1] (sc_hm s) = Some [5] /\
+      hm_lookup kWS (sc_hm s) = Some (repeat 2 22) /\ hm_lookup kWSWG (sc_hm s) = Some (repeat 1 22) /\
+      match from_save ex_st_id ex_bio_id (fun v => Z.eqb v 0) 15 6 s with
+      | SOk (secs, hm, st) =>
+          hm = c_hm ex_src /\ st = c_status ex_src /\
+          map (fun o => match o with
+                        | Some x => (s_count x, wc_abs 4 (s_states x), wc_abs 2 (s_biomes x), s_sky x)
+                        | None => (0%Z, None, None, None) end) secs
+          = [(2%Z, Some [0; 9; 85; 0]%Z, Some [7; 7]%Z, Some (repeat 255 2048))]
+      | _ => False
+      end
+  | _ => False
+  end.
+Proof. vm_compute. repeat split; reflexivity. Qed.
+
+(* the hypotheses of C13_save are satisfiable: a chunk of one all-air section *)
+Definition ex_single (v n : Z) : wcont := mkWC 0 kSingle [v] (mkBS [] 0 0%Z n 0%Z).
+Example C13_ex_save_ok : exists h,
+  save_ok ex_st_name ex_bio_name 15 6
+    (mkChunk [mkSec 0%Z (ex_single 0 4096) (ex_single 7 64) None (Some [1; 2])] (mkHM h h h h h h) [] [] [102])
+    ex_save_dst /\
+  (forall v x, ex_st_name v = Some x -> ex_st_id x = Some v) /\
+  (forall v x, ex_bio_name v = Some x -> ex_bio_id x = Some v).
+Proof.
+  destruct (Proofs.C11.new_zero 5 256 ltac:(lia) ltac:(lia)) as (st & _ & W & Hb & Hl & _).
+  exists (Some st). split; [|split].
+  - unfold save_ok. cbn [c_secs c_hm hWSWG hWS hOFWG hOF hMB hMBNL sc_ypos ex_save_dst length].
+    assert (HM: hm_ok (lenN [mkSec 0%Z (ex_single 0 4096) (ex_single 7 64) None (Some [1; 2])]) (Some st)).
+    { exists st. split; [reflexivity|]. split; [exact W|]. split; [rewrite Hb; reflexivity|rewrite Hl; reflexivity]. }
+    split; [|split; [repeat split; exact HM|lia]].
+    constructor; [|constructor]. unfold sec_inv. cbn [s_states s_biomes].
+    split; [|split; [|split]].
+    + constructor; cbn; try reflexivity; try lia; [eexists; reflexivity|]. intros i _. eexists. reflexivity.
+    + constructor; cbn; try reflexivity; try lia; [eexists; reflexivity|]. intros i _. eexists. reflexivity.
+    + repeat constructor. eexists. reflexivity.
+    + repeat constructor. eexists. reflexivity.
+  - intros v x H. unfold ex_st_name in H. destruct ((0 <=? v) && (v <? 256))%Z eqn:E; [|discriminate].
+    inversion H; subst. unfold ex_st_id. cbn [fst]. f_equal. lia.
+  - intros v x H. unfold ex_bio_name in H. destruct ((0 <=? v) && (v <? 64))%Z eqn:E; [|discriminate].
+    inversion H; subst. unfold ex_bio_id. f_equal. lia.
+Qed.
+
+(* the hypotheses of C13_wire_instantiated are satisfiable: C12 containers as NewStatesPaletteContainer /
+   NewBiomesPaletteContainer leave them, a block entity carrying an empty compound, into a destination
+   with other defaults *)
+Definition ex_pc (k : Model.C12.kind) (g n v : Z) : Model.C12.pc :=
+  Model.C12.mkPC 0 (Model.C12.mkCfg k g) (Model.C12.PSingle v) (mkBS [] 0 0%Z n 0%Z).
+Example C13_ex_inst : exists (h : option bstore) (c d : chunk Model.C12.pc),
+  c = mkChunk [mkSec 4096%Z (ex_pc Model.C12.KStates 15 4096 5) (ex_pc Model.C12.KBiomes 6 64 3) (Some [1; 2]) None]
+              (mkHM h h h h h h) [mkBE (-1) 70 5 10 [0]] [] [102] /\
+  d = mkChunk [mkSec 7%Z (ex_pc Model.C12.KStates 15 4096 0) (ex_pc Model.C12.KBiomes 6 64 9) None None]
+              (mkHM None None None None None None) [] [mkBE 1 2 3 0 []] [] /\
+  chunk_ok Model.C12.pc i_write (i_good 4) i_compat c d.
+Proof.
+  assert (G: forall k g n v, Proofs.C12.wfcfg (Model.C12.mkCfg k g) -> (0 <= n)%Z -> Proofs.C12.inreg (Model.C12.mkCfg k g) v ->
+             i_good 4 (ex_pc k g n v)).
+  { intros k g n v H1 H2 H3. destruct (Proofs.C12.new_inv _ n v H1 H2 H3) as (c & Hnew & HI & _).
+    unfold Model.C12.pc_new in Hnew. rewrite Proofs.C11.b0_new in Hnew. inversion Hnew; subst c.
+    split; [exact HI|]. split; [reflexivity|cbn; lia]. }
+  assert (G1: i_good 4 (ex_pc Model.C12.KStates 15 4096 5)).
+  { apply G; [unfold Proofs.C12.wfcfg; cbn; lia|lia|unfold Proofs.C12.inreg; cbn; lia]. }
+  assert (G3: i_good 4 (ex_pc Model.C12.KBiomes 6 64 3)).
+  { apply G; [unfold Proofs.C12.wfcfg; cbn; lia|lia|unfold Proofs.C12.inreg; cbn; lia]. }
+  destruct (Proofs.C11.new_zero 5 256 ltac:(lia) ltac:(lia)) as (st & _ & W & Hb & Hl & _).
+  exists (Some st). eexists. eexists. split; [reflexivity|]. split; [reflexivity|].
+  assert (HM: hm_ok 1 (Some st)).
+  { exists st. split; [reflexivity|]. split; [exact W|]. split; [rewrite Hb; reflexivity|rewrite Hl; reflexivity]. }
+  unfold chunk_ok. cbn [c_secs c_hm c_bes hMB hWS length].
+  split; [|split; [lia|split; [|split; [exact HM|split; [exact HM|split; [|split]]]]]].
+  - constructor; [|constructor]. unfold sec_ok. cbn [s_count s_states s_biomes].
+    split; [lia|]. split; [exact G1|]. split; [exact G3|]. split; split; reflexivity.
+  - constructor; [|constructor]. cbn [s_sky s_blk light_ok]. split; [|exact I]. split; [repeat constructor|reflexivity].
+  - constructor; [|constructor]. unfold bent_ok. cbn. split; [lia|]. split; [lia|]. split; [lia|].
+    right. exists (Model.C01.TCompound []). split; [reflexivity|]. split; [vm_compute; discriminate|]. split; reflexivity.
+  - reflexivity.
+  - vm_compute. reflexivity.
+Qed.
 
 Example C13_ex_count :
   arr_set_blocks (fun v => Z.eqb v 0) (0%Z, repeat 0%Z 8) [(1, 5); (1, 0); (2, 7); (2, 9); (7, 1)]%Z
